@@ -80,6 +80,10 @@ func exprKey(v ssa.Value, depth int) string {
 			return exprKey(x.X, depth+1)
 		}
 	}
+	if f := v.Parent(); f != nil {
+		// register names are unique within a function
+		return "?" + v.Name() + "@" + f.String()
+	}
 	return fmt.Sprintf("?%s@%p", v.Name(), v)
 }
 
